@@ -594,6 +594,15 @@ class ServerTls(Server):
         self.serviceCxes()
 
 
+    def close(self):
+        """
+        Close all sockets including those of connections still handshaking
+        """
+        super(ServerTls, self).close()
+        for cx in self.cxes.values():  # remoter still handshaking
+            cx.close()
+
+
 class Remoter(tyming.Tymee):
     """
     Class to service an incoming nonblocking TCP connection from a remote client.
